@@ -25,7 +25,11 @@ func (h *Handle) OnRun(self any) error  { return h.C.Callback("run", h.ID, self)
 // (possibly injected) result.
 func (h *Handle) OnClose(self any) error {
 	h.C.Log("close-enter", h.ID, "")
-	h.C.Yield("close:" + h.ID)
+	// a closer is slow (parks inside Close until released) or fast (returns at once);
+	// the goroutine calling it has been released alone, so drawing here is serial
+	if h.C.Parallel || h.C.Ch.Choose("closer-fast", 3) != 1 {
+		h.C.Yield("close:" + h.ID)
+	}
 	err := h.C.Callback("close", h.ID, self)
 	h.C.Log("close-exit", h.ID, "")
 	return err
